@@ -129,20 +129,20 @@ def make_P(ctx, cfg, universes, nontrivial, rule, quick_beh=150, thorough_beh=30
     denv.update(env or {})
     if gen == "cover":
         g = {"module": "Gen_CalcEnv", "cfg": "Gen_cover.cfg", "thorough_cfg": "Gen_cover3.cfg", "workers": 1,
-             "max": quick_beh, "thorough_max": thorough_beh, "thorough_timeout": 1500}
+             "max": quick_beh, "thorough_max": thorough_beh, "timeout": 900, "thorough_timeout": 2400}
     elif gen == "sim":
         g = {"module": "Gen_CalcEnv", "cfg": "Gen_sim.cfg", "simulate": {"num": quick_beh, "depth": 45},
-             "thorough_simulate": {"num": thorough_beh, "depth": 45}, "thorough_timeout": 1500}
+             "thorough_simulate": {"num": thorough_beh, "depth": 45}, "timeout": 900, "thorough_timeout": 2400}
     else:
         g = None
     return {
         "specdir": SPECDIR,
         "design": [{"module": "I_CalcEnv", "cfg": "MC_I_CalcEnv_quick.cfg", "thorough_cfg": "MC_I_CalcEnv.cfg", "workers": 4,
-                    "timeout": 300, "thorough_timeout": 1500, "heap": "4g"}] if design else [],
+                    "timeout": 900, "thorough_timeout": 2400, "heap": "4g"}] if design else [],
         "gen": g,
         "driver": {"cmd": "calcgraph", "env": denv},
         "n_random": n_random,
-        "trace": {"module": "T_Calc", "cfg": cfg, "extra_files": {"catalogue.json": cat}, "timeout": 900, "heap": "4g"},
+        "trace": {"module": "T_Calc", "cfg": cfg, "extra_files": {"catalogue.json": cat}, "timeout": 1800, "heap": "4g"},
         "chunk": 12000,
         "signature": make_signature(ctx, cfg),
         "nontrivial": nontrivial,
